@@ -626,7 +626,7 @@ pub fn run_c14(cfg: &Cfg) -> i32 {
         } else {
             // three outstanding requests; the mutated message stands in for the reply to the 2nd
             let sess_ref = &mut s;
-            let res = catch_unwind(AssertUnwindSafe(|| three_outstanding(sess_ref, base.kind, &mutated, &mut r)));
+            let res = catch_unwind(AssertUnwindSafe(|| three_outstanding(sess_ref, base.kind, &mutated, text.as_bytes(), &mut r)));
             match res {
                 Err(p) => {
                     let m = panic_message(p);
@@ -648,7 +648,24 @@ pub fn run_c14(cfg: &Cfg) -> i32 {
                         }
                         // every delimiter-terminated piece of the mutated bytes is one bad message and
                         // may fail one caller (its reader or its owner)
-                        if fails > obs.nparts || (obs.nparts == 1 && fails == 1 && obs.second_resolved) {
+                        if obs.owner_identifiable {
+                            rep.count("mutations_leaving_the_owner_identifiable");
+                            // the first piece belongs to the 2nd request beyond doubt: only further
+                            // (headless) pieces may fail their reader, and the owner must get an answer
+                            if fails > obs.nparts - 1 {
+                                rep.violation(
+                                    &format!("collateral-failure:owner-identifiable:{mname}"),
+                                    "the start tag of the damaged reply (message-id of the 2nd request) was intact, yet another outstanding request failed",
+                                    wit(json!(obs.describe)),
+                                );
+                            } else if obs.nparts == 1 && !obs.second_resolved {
+                                rep.violation(
+                                    &format!("affected-call-never-resolved:{mname}"),
+                                    "the damaged reply was delivered completely (delimiter included), its owner is still waiting at quiescence",
+                                    wit(json!(obs.describe)),
+                                );
+                            }
+                        } else if fails > obs.nparts || (obs.nparts == 1 && fails == 1 && obs.second_resolved) {
                             rep.violation(
                                 &format!("collateral-failure:{mname}"),
                                 "more than the one affected call failed: the garbage message made a second outstanding request fail",
@@ -675,6 +692,7 @@ pub fn run_c14(cfg: &Cfg) -> i32 {
 }
 
 struct Obs {
+    owner_identifiable: bool,
     first_ok: bool,
     third_ok: bool,
     second_resolved: bool,
@@ -688,7 +706,7 @@ struct Obs {
 
 /// Issue three requests (the 2nd of reply type `kind`), deliver [mutated(2nd), valid(1st), valid(3rd)],
 /// then await 1st, 3rd, 2nd in a random order.
-fn three_outstanding(s: &mut Sess, kind: Kind, mutated: &[u8], r: &mut Prng) -> Result<Obs, String> {
+fn three_outstanding(s: &mut Sess, kind: Kind, mutated: &[u8], original: &[u8], r: &mut Prng) -> Result<Obs, String> {
     use crate::sched::drive;
     let sent0 = s.sent_count();
     let f1 = drive(s.session.rpc::<Get, _>(|b| b.finish()), 16).ok_or("rpc 1 stuck")?.map_err(|e| format!("{e:?}"))?;
@@ -737,6 +755,16 @@ fn three_outstanding(s: &mut Sess, kind: Kind, mutated: &[u8], r: &mut Prng) -> 
             i += 1;
         }
     }
+    // is the owner of the mutated message identifiable beyond doubt? (everything up to the end of
+    // the <rpc-reply ...> start tag is untouched, and the message is text)
+    let owner_identifiable = {
+        let at = original.windows(9).position(|w| w == b"rpc-reply");
+        let end = at.and_then(|a| original[a..].iter().position(|b| *b == b'>').map(|e| a + e + 1));
+        match end {
+            Some(e) => mutated.len() >= e && mutated[..e] == original[..e] && std::str::from_utf8(mutated).is_ok() && original[..e].windows(4).any(|w| w == b"@ID@"),
+            None => false,
+        }
+    };
     let lenient = crate::memwire::request_message_id_lenient(&m2);
     let collateral_by_design = lenient.as_deref() == Some(ids[0].as_str()) || lenient.as_deref() == Some(ids[2].as_str());
     let (t1, t3) = (format!("own-{}", ids[0]), format!("own-{}", ids[2]));
@@ -790,5 +818,5 @@ fn three_outstanding(s: &mut Sess, kind: Kind, mutated: &[u8], r: &mut Prng) -> 
         "second": match &o2 { None => "waiting".to_string(), Some(Ok(v)) => format!("Ok({})", clip(v, 80)), Some(Err(e)) => format!("Err({})", clip(&format!("{e:?}"), 160)) },
         "mutated_message_id": lenient, "ids": ids, "messages_delivered_for_mutation": nparts});
     let dirty = s.wire.lock().inbox.len() > 0 || !first_ok || !third_ok || !second_resolved || nparts > 1;
-    Ok(Obs { first_ok, third_ok, second_resolved, wrong_value, collateral_by_design, dirty, nparts, affected, describe })
+    Ok(Obs { first_ok, third_ok, second_resolved, wrong_value, collateral_by_design, dirty, nparts, affected, describe, owner_identifiable })
 }
